@@ -14,6 +14,10 @@
 (* advertisements of a Set call forwards or backwards; one history with a   *)
 (* preliminary Set and a session that is closed again).  All neighbors with *)
 (* one session exhaustively, pairs and triples by RandomSubset (-seed).     *)
+(* In addition HISTORIES on one session manager (fixed prefix + 3 operations *)
+(* out of: accepted Set, Set that must be refused for two causes, Set on the *)
+(* other session, SyncBFDProfiles / SyncExtraInfo, Close, third NewSession), *)
+(* observed after every operation against the last ACCEPTED Sets.            *)
 (* The invariant Emit prints each input as JSON.                            *)
 (*                                                                          *)
 (* Role A: Gen / GenCR build the abstract program / resource the way        *)
